@@ -381,7 +381,11 @@ def gen(rng, tier):
     for (w, n) in root_configs(CONFIGS_QUICK):
         bits = w * n
         M = 1 << bits
-        for k in degrees(bits) + [0, 6, 9, 10, 31, 32, 33]:
+        ks = degrees(bits) + [0, 6, 9, 10, 31, 32, 33]
+        if bits > 1100 and not thorough:
+            # the model's Newton iteration is costly at 2400 bits: a subset of the degrees (large degrees cost ~0.7 k Newton steps of a k-th power each)
+            ks = [0, 2, 3, 7, 40, bits - 1, bits, U32MAX]
+        for k in ks:
             for op in ("U.nth_root", "I.nth_root"):
                 lim = M if op[0] == "U" else M >> 1
                 r0 = iroot(lim - 1, k) if 0 < k < bits else 1
